@@ -23,6 +23,7 @@ import (
 	cfgapi "github.com/containers/nri-plugins/pkg/apis/config/v1alpha1"
 	"github.com/containers/nri-plugins/pkg/kubernetes"
 	logger "github.com/containers/nri-plugins/pkg/log"
+	cachepkg "github.com/containers/nri-plugins/pkg/resmgr/cache"
 	cpuctl "github.com/containers/nri-plugins/pkg/resmgr/control/cpu"
 	resmgrevents "github.com/containers/nri-plugins/pkg/resmgr/events"
 	libmem "github.com/containers/nri-plugins/pkg/resmgr/lib/memory"
@@ -102,6 +103,7 @@ type menu struct {
 	recreateLive                               bool  // offer creating a same-named container while the old one is still alive in the runtime
 	ghost                                      bool  // also offer events that name a pod/container the plugin has never seen
 	coldDone                                   bool  // offer the end of a running container's cold-start period (policy event cold-start-done)
+	resyncTruth                                bool  // offer Synchronize on the same instance after containers/pods vanished from the runtime
 }
 
 // ---------------------------------------------------------------------------
@@ -491,30 +493,32 @@ type reply struct {
 }
 
 type exec struct {
-	scn          *scenario
-	w            *world
-	in           *inst
-	dir          string
-	log          []string    // told-view problems found while applying replies (C05 material)
-	addr         []addressed // every adjustment/update addressed to a container, for C12
-	last         *reply
-	restarts     int
-	prevTarget   *wctr // target container of the previous event
-	frozenSync   bool
-	frozenPods   []string // world pod slots listed by a frozen Synchronize
-	frozenCtrs   []string // container ids listed by a frozen Synchronize, with their state at freeze time
-	frozenLife   map[string]int
-	cutAfter     string         // kind of the request a restartcut interrupted
-	addrMark     int            // index into addr where the last event started
-	cfgBefore    int            // configuration index before the last event
-	preSnap      *snap          // snapshot before the last event
-	lastSaves    [][]byte       // cache file content after every save made by the last event
-	lastKind     string         // kind of the last event
-	extraPod     *wpod          // a pod+container the runtime created while the plugin was down
-	rejected     []int          // indices (in the executed trace, prefix excluded) of configuration updates that were refused
-	evIndex      int            // index of the event being executed, -1 during the prefix
-	toldBefore   map[string]res // told-view of every container before the last event
-	replyChanged []string       // C15: replies that changed between the handler's return and their consumption
+	scn            *scenario
+	w              *world
+	in             *inst
+	dir            string
+	log            []string    // told-view problems found while applying replies (C05 material)
+	addr           []addressed // every adjustment/update addressed to a container, for C12
+	last           *reply
+	restarts       int
+	resyncs        int   // re-synchronisations of the same instance after the runtime's truth changed
+	prevTarget     *wctr // target container of the previous event
+	frozenSync     bool
+	frozenPods     []string // world pod slots listed by a frozen Synchronize
+	frozenCtrs     []string // container ids listed by a frozen Synchronize, with their state at freeze time
+	frozenLife     map[string]int
+	cutAfter       string          // kind of the request a restartcut interrupted
+	addrMark       int             // index into addr where the last event started
+	cfgBefore      int             // configuration index before the last event
+	preSnap        *snap           // snapshot before the last event
+	lastSaves      [][]byte        // cache file content after every save made by the last event
+	lastKind       string          // kind of the last event
+	extraPod       *wpod           // a pod+container the runtime created while the plugin was down
+	rejected       []int           // indices (in the executed trace, prefix excluded) of configuration updates that were refused
+	evIndex        int             // index of the event being executed, -1 during the prefix
+	toldBefore     map[string]res  // told-view of every container before the last event
+	replyChanged   []string        // C15: replies that changed between the handler's return and their consumption
+	rejectedLabels map[string]bool // labels of the configuration updates refused so far
 }
 
 type addressed struct {
@@ -759,7 +763,7 @@ func (x *exec) step(ev string) *reply {
 			changed, err := m.policy.HandleEvent(&resmgrevents.Policy{Type: tapolicy.ColdStartDone, Source: tapolicy.PolicyName, Data: c.id()})
 			rp.err = err
 			if changed {
-				if err := m.nri.updateContainers(); err != nil && rp.err == nil {
+				if err := pushPending(m); err != nil && rp.err == nil {
 					rp.err = err
 				}
 			}
@@ -777,12 +781,22 @@ func (x *exec) step(ev string) *reply {
 				w.cfgIdx = idx
 			} else if x.evIndex >= 0 {
 				x.rejected = append(x.rejected, x.evIndex)
+				if x.rejectedLabels == nil {
+					x.rejectedLabels = map[string]bool{}
+				}
+				x.rejectedLabels[x.scn.cfgs[idx].label] = true
 			}
 			x.applyUpdates(ev, "push", rp.pushed, "")
 		}
-	case "restart", "restartcut":
-		// a new plugin instance on the same state directory, then the runtime's Synchronize
-		x.restarts++
+	case "restart", "restartcut", "resync":
+		// restart: a new plugin instance on the same state directory, then the runtime's Synchronize;
+		// resync: the SAME instance is re-synchronised (the runtime restarted or reconnected) after the runtime's truth changed
+		// behind the plugin's back - the policy still holds whatever it kept about the vanished containers
+		if f[0] != "resync" {
+			x.restarts++
+		} else {
+			x.resyncs++
+		}
 		if f[0] == "restartcut" {
 			x.cutAfter = prevKind
 			// the plugin died in the middle of the previous request: the state directory holds an intermediate save
@@ -839,14 +853,16 @@ func (x *exec) step(ev string) *reply {
 				}
 			}
 		}
-		in, err := newInstRestart(x)
-		if err != nil {
-			rp.err = fmt.Errorf("restart failed: %w", err)
-			x.in.dead = true
-			break
+		if f[0] != "resync" {
+			in, err := newInstRestart(x)
+			if err != nil {
+				rp.err = fmt.Errorf("restart failed: %w", err)
+				x.in.dead = true
+				break
+			}
+			x.in = in
+			x.hookStub()
 		}
-		x.in = in
-		x.hookStub()
 		pods, ctrs := x.runtimeLists()
 		guard(func() { rp.updates, rp.err = x.in.m.nri.Synchronize(ctx, pods, ctrs) })
 		if rp.panic == "" {
@@ -1035,6 +1051,24 @@ func (x *exec) enabled() []string {
 			evs = append(evs, "restart:new")
 		}
 	}
+	if m.resyncTruth && x.resyncs < 1 {
+		anyLive := false
+		for _, p := range x.w.pods {
+			n := 0
+			for _, c := range p.ctrs {
+				if c.live() {
+					n++
+				}
+			}
+			if n > 0 {
+				anyLive = true
+				evs = append(evs, "resync:podgone="+p.slot)
+			}
+		}
+		if anyLive {
+			evs = append(evs, "resync:allgone")
+		}
+	}
 	if m.restartCuts && x.restarts < 2 && (x.lastKind == "create" || x.lastKind == "stop") {
 		for k := 0; k+1 < len(x.lastSaves); k++ {
 			evs = append(evs, fmt.Sprintf("restartcut:%d", k))
@@ -1068,6 +1102,7 @@ type memReq struct {
 
 type snap struct {
 	World    []string
+	KeyOnly  []string // part of the state key only (history markers), never compared between executions
 	Cfg      int
 	Cache    map[string]cacheCtr
 	Pending  []string
@@ -1124,6 +1159,20 @@ func (x *exec) snapshot() *snap {
 	}
 	for _, c := range m.cache.GetPendingContainers() {
 		s.Pending = append(s.Pending, c.GetID())
+	}
+	// hidden state made visible: implicit affinities registered in the cache, and which kinds of configuration update have
+	// been rejected so far (a rejected update must leave no trace - if it leaves one the accessors cannot see, merging the
+	// state with the one that never saw the update would keep the search from ever exploring its consequences)
+	if names := cachepkg.VerifImplicitAffinities(x.rawCache()); len(names) > 0 {
+		s.World = append(s.World, "implicit-affinities="+strings.Join(names, ","))
+	}
+	if len(x.rejectedLabels) > 0 {
+		var ls []string
+		for l := range x.rejectedLabels {
+			ls = append(ls, l)
+		}
+		sort.Strings(ls)
+		s.KeyOnly = append(s.KeyOnly, "rejected-updates="+strings.Join(ls, ","))
 	}
 	sort.Strings(s.Pending)
 	for _, p := range m.cache.GetPods() {
@@ -1216,4 +1265,12 @@ func (x *exec) frozenLists() ([]*api.PodSandbox, []*api.Container) {
 		ctrs = append(ctrs, c.nri(st, c.told))
 	}
 	return pods, ctrs
+}
+
+// rawCache returns the resource manager's cache without the C15 access-checking proxy.
+func (x *exec) rawCache() cachepkg.Cache {
+	if p, ok := x.in.m.cache.(*c15Cache); ok {
+		return p.Cache
+	}
+	return x.in.m.cache
 }
